@@ -38,6 +38,7 @@ type Check struct {
 	Level    string
 	start    time.Time
 	Obls     []*Obligation
+	keep     func(string) bool
 	Explain  string
 	Uncov    []string
 	Configs  []string
@@ -58,7 +59,19 @@ func NewCheck(prop, tier string) *Check {
 	return &Check{Property: prop, Tier: tier, Level: "other", start: time.Now(), Funcs: map[string]bool{}, Extra: map[string]interface{}{}, RuleDoc: map[string]string{}}
 }
 
+// only runs a rule function and keeps just the obligations whose key satisfies keep (used to cross-list one
+// obligation of a larger rule under another property).
+func (c *Check) only(keep func(key string) bool, run func()) {
+	old := c.keep
+	c.keep = keep
+	run()
+	c.keep = old
+}
+
 func (c *Check) add(o *Obligation) *Obligation {
+	if c.keep != nil && !c.keep(o.Key) {
+		return o
+	}
 	// de-duplicate by rule+key+config
 	for _, p := range c.Obls {
 		if p.Rule == o.Rule && p.Key == o.Key && p.Config == o.Config {
